@@ -152,6 +152,10 @@ def union_specs(cat, dims):
         ("union-scalars", {"k": "union", "as": [{"k": "scalar", "s": s} for s in ("bool", "int", "float", "complex")]}),
         ("union-np-scalars", {"k": "union", "as": [{"k": "scalar", "s": s} for s in ("np.bool_", "np.number", "np.generic")] + [O]}),
         ("union-with-nested", {"k": "union", "as": [nested, O]}),
+        # members that print alike (same array class, same axes) and differ only in the category they were built with
+        ("union-nested-cats", {"k": "union", "as": [made("Float", A, "x"), made("Int", A, "x")]}),
+        ("union-nested-cats3", {"k": "union", "as": [made("Bool", A, "x"), made("Float", A, "x"), made("UInt8", A, "x"), made("Float", O, "x")]}),
+        ("tvconstr-nested-cats", {"k": "tvconstr", "as": [made("Complex", A, "x"), made("Int", A, "x")]}),
         ("union-any", {"k": "union", "as": [ANY, {"k": "scalar", "s": "int"}]}),
         ("tvbound", {"k": "tvbound", "a": A}),
         ("tvbound-nested", {"k": "tvbound", "a": nested}),
